@@ -63,7 +63,7 @@ Proof. exact zero_batch_spins. Qed.
 Print Assumptions C38_unclamped_zero_batch_refuted.
 
 (* ... but on the property's domain the clamp changes nothing: for 5m chunks as DownsampleRaw
-   writes them (at most 706 rows each) and a 5m -> 1h target chunk count within the bound the
+   writes them (at most 720 rows each) and a 5m -> 1h target chunk count within the bound the
    heuristic guarantees (both checked on the implementation's values in corr_ok), there are
    never more target chunks than chunks.  So blocks written by Thanos never hit the hang;
    only foreign / hand-made 5m blocks with very large chunks could. *)
